@@ -1,6 +1,7 @@
 import ComposeVerif.Lemmas.Pipeline
 import ComposeVerif.Props.C01Pipeline
 import ComposeVerif.Props.C05
+import ComposeVerif.Gen.PipelineSource
 /-!
 # C01 — the composed pipeline has no panic outcome beyond the four reviewed sites
 
@@ -243,6 +244,18 @@ theorem loadY_only_panic_sites (c : Cfg) (files : List (List Reset.YNode)) (s : 
   · rw [h1]; simp [reviewedSites]
   · simp only [reviewedSites, List.mem_cons, List.mem_nil_iff, or_false] at h2 ⊢
     exact .inr h2
+
+/-- **the glue is the source**: the stage calls of `loadYamlFile` (with its closure `processRawYaml`), `loadYamlModel`,
+`load`, `loadModelWithContext` and `ResolveEnvironment` — in source order, each with the option tests that guard it,
+regenerated from loader/loader.go and loader/environment.go on every run — are the skeleton `Model/Pipeline.lean`
+composes.  Reordering two stages, dropping one or changing a guard breaks this obligation. -/
+theorem glue_skeleton_is_modelled :
+    CV.Gen.pipeline_skeleton_loadYamlFile = skeletonLoadYamlFile ∧
+    CV.Gen.pipeline_skeleton_loadYamlModel = skeletonLoadYamlModel ∧
+    CV.Gen.pipeline_skeleton_load = skeletonLoad ∧
+    CV.Gen.pipeline_skeleton_loadModelWithContext = skeletonLoadModelWithContext ∧
+    CV.Gen.pipeline_skeleton_ResolveEnvironment = skeletonResolveEnvironment := by
+  refine ⟨?_, ?_, ?_, ?_, ?_⟩ <;> decide
 
 /-- the empty list of files and the empty model are *errors* (never a crash, never an empty project) -/
 theorem load_no_files (c : Cfg) : load c [] = .err "nofiles" := rfl
